@@ -139,6 +139,20 @@ Definition assign_bit_m (w word pos : Z) (value : bool) : res Z :=
     Ok (wu w (Z.lor (Z.land word (wu w (bnot (U w) m))) v))
   else Contract.
 
+(** * the template<size_t Pos> overloads of set_bit.hpp, reset_bit.hpp, flip_bit.hpp, test_bit.hpp:
+     set_bit<Pos>(word), set_bit<Pos>(word, value), reset_bit<Pos>(word), flip_bit<Pos>(word), test_bit<Pos>(word).
+     static_assert(Pos < numeric_limits<UInt>::digits): an instantiation with Pos >= digits does not compile - [None];
+     otherwise the wrapper forwards to the run-time overload with static_cast<UInt>(Pos) (Pos : size_t, any
+     non-negative integer here) *)
+Definition tpl_pos {A : Type} (w Pos : Z) (k : Z -> res A) : option (res A) :=
+  if Pos <? w then Some (k (wu w Pos)) else None.
+Definition set_bit_tpl_m (w Pos word : Z) : option (res Z) := tpl_pos w Pos (fun p => set_bit_m w word p).
+Definition assign_bit_tpl_m (w Pos word : Z) (value : bool) : option (res Z) :=
+  tpl_pos w Pos (fun p => assign_bit_m w word p value).
+Definition reset_bit_tpl_m (w Pos word : Z) : option (res Z) := tpl_pos w Pos (fun p => reset_bit_m w word p).
+Definition flip_bit_tpl_m (w Pos word : Z) : option (res Z) := tpl_pos w Pos (fun p => flip_bit_m w word p).
+Definition test_bit_tpl_m (w Pos word : Z) : option (res bool) := tpl_pos w Pos (fun p => test_bit_m w word p).
+
 (** * _bit/popcount.hpp *)
 (* detail::popcount_fallback: for (; val != 0; val &= val - UInt(1)) c++; *)
 Fixpoint popcount_loop (fuel : nat) (w val c : Z) : res Z :=
@@ -418,6 +432,10 @@ Definition ipow_m (t : ity) (base e : Z) : res Z := ipow_loop (Z.to_nat e) t bas
 (* ipow<Base>(exponent) with Base == 2: static_cast<Int>(Int(1) << exponent) *)
 Definition ipow2_m (t : ity) (e : Z) : res Z :=
   do r <- shl t 1 e; Ok (cast t r).
+
+(* ipow<Base>(exponent), Base a value of type Int: the shift for Base == 2, otherwise forwards to ipow(Base, exponent) *)
+Definition ipow_base_m (t : ity) (base e : Z) : res Z :=
+  if base =? 2 then ipow2_m t e else ipow_m t base e.
 
 (* for (; x > Int(1); x >>= Int(1)) ++result; *)
 Fixpoint ilog2_loop (fuel : nat) (t : ity) (x result : Z) : res Z :=
